@@ -1,5 +1,6 @@
 import RtenVerif.Driver.Util
 import RtenVerif.Model.Chunks
+import RtenVerif.Generated.EncodeOptionsFields
 
 /-!
 Line protocol for C29.
@@ -10,7 +11,12 @@ Line protocol for C29.
   text of `n1` (and a second text of `n2`) two-letter words separated by single spaces, encoded
   one token per word: token `j` of the first text has id `3+j` and offset `3j`, token `j` of the
   second text id `103+j` and offset `len1+3j`; `[CLS]`=0, `[SEP]`=1.
-  Answer: per chunk `ids;offsets;first_seq_tokens`, chunks separated by `|`; `none`; `panic`.
+  `cls`/`sep` = 2 configures a special-token string the model does not know; `api=encode` calls
+  `Tokenizer::encode` (first chunk or the fabricated empty chunk) instead of `encode_chunks`.
+  Answer: per chunk `ids;offsets;first_seq_tokens`, chunks separated by `|`; `none`; `panic`;
+  `err:tokenid`.
+* `fields` — the public option surface (`EncodeOptions`, `TokenizerOptions`, `EncoderInput`) as
+  extracted from the source by translate/encode_options.py.
 -/
 namespace RtenVerif.Driver.C29
 open RtenVerif.Driver RtenVerif.Chunks
@@ -48,20 +54,31 @@ def handle (line : String) : String :=
     match natField ws "n1", optNatField ws "n2", natField ws "cls", natField ws "sep",
         optNatField ws "lim", natField ws "ov" with
     | some n1, some n2, some cls, some sep, some lim, some ov =>
-      let clsT := if cls = 1 then some 0 else none
-      let sepT := if sep = 1 then some 1 else none
+      let special (k : Nat) (id : Nat) : Special :=
+        if k = 0 then .absent else if k = 1 then .tok id else .unknown
       let toks1 := (List.range n1).map (· + 3)
       let offs1 := (List.range n1).map (· * 3)
       let len1 := textLen n1
-      let res := match n2 with
-        | none => encodeSingle clsT sepT lim ov toks1 offs1 len1
+      let inp : Input := match n2 with
+        | none => .item toks1 offs1 len1
         | some n2 =>
-          encodePair clsT sepT lim ov toks1 offs1 ((List.range n2).map (· + 103))
+          .pair toks1 offs1 ((List.range n2).map (· + 103))
             ((List.range n2).map (fun j => len1 + 3 * j)) len1 (textLen n2)
-      match res with
-      | none => "panic"
-      | some cs => showEnc cs
+      if field ws "api" == some "encode" then
+        match encode (special cls 0) (special sep 1) lim ov inp with
+        | .error _ => "err:tokenid"
+        | .ok none => "panic"
+        | .ok (some c) => showEnc [c]
+      else
+        match encodeChunks (special cls 0) (special sep 1) lim ov inp with
+        | .error _ => "err:tokenid"
+        | .ok none => "panic"
+        | .ok (some cs) => showEnc cs
     | _, _, _, _, _, _ => "bad-request"
+  | ["fields"] =>
+    "EncodeOptions:" ++ joinWith "," RtenVerif.Generated.EncodeOptionsFields.encodeOptions ++
+    " TokenizerOptions:" ++ joinWith "," RtenVerif.Generated.EncodeOptionsFields.tokenizerOptions ++
+    " EncoderInput:" ++ joinWith "," RtenVerif.Generated.EncodeOptionsFields.encoderInput
   | _ => "bad-request"
 
 end RtenVerif.Driver.C29
